@@ -962,3 +962,23 @@ N('C16', 'gcd of derived rows over absolute values', 'prover/omega.py',
 B('C18', 'qnt_rm_unused strips both sides without regard to the quantifier', VM,
   "        if lhs.is_forall():\n            l_vars, l_bd = lhs.strip_forall()\n            r_vars, r_bd = rhs.strip_forall()\n        else:\n            l_vars, l_bd = lhs.strip_exists()\n            r_vars, r_bd = rhs.strip_exists()\n        free_vars = []",
   "        l_vars, l_bd = lhs.strip_quant()\n        r_vars, r_bd = rhs.strip_quant()\n        free_vars = []", 'C18.R21', 'verit_qnt_rm_unused')
+# ------------------------------------------------------------------------------------------- round 5
+B('C01', 'subst_type skips hypotheses without schematic type variables', THM,
+  "        hyps_new = tuple(hyp.subst_type(tyinst) for hyp in th.hyps)", "        hyps_new = tuple(hyp.subst_type(tyinst) if hyp.get_stvars() else hyp for hyp in th.hyps)", 'C01.K16', 'Thm.subst_type')
+B('C01', 'substitution instantiates the hypotheses without the type part', THM,
+  "            hyps_new = tuple(hyp.subst(inst) for hyp in th.hyps)", "            hyps_new = tuple(hyp.subst(Inst(inst)) for hyp in th.hyps)", 'C01.K16', 'Thm.substitution')
+N('C01', 'subst_type builds the hypotheses as a list first', THM,
+  "        hyps_new = tuple(hyp.subst_type(tyinst) for hyp in th.hyps)", "        hyps_new = [hyp.subst_type(tyinst) for hyp in th.hyps]")
+B('C03', 'type instantiation applied before it is inferred', TERM,
+  "        # First match type variables.\n        svars = self.get_svars()", "        t = self\n        if inst.tyinst:\n            t = self.subst_type(inst.tyinst)\n\n        # First match type variables.\n        svars = self.get_svars()", 'C03.I8', 'Term.subst',
+  more=[("        t = self\n        if inst.tyinst:\n            t = self.subst_type(inst.tyinst)\n        return rec(t)", "        return rec(t)")])
+B('C05', 'zero polynomial returned before the exponent is looked at', 'util/poly.py',
+  "        assert isinstance(other, int) and other >= 0\n        if other == 0:\n            return Polynomial([Monomial(1, [])])", "        assert isinstance(other, int) and other >= 0\n        if self.is_zero_constant():\n            return self\n        if other == 0:\n            return Polynomial([Monomial(1, [])])", 'C05.T8', '__pow__')
+N('C05', 'exponent one answered early, after the exponent zero', 'util/poly.py',
+  "        if other == 0:\n            return Polynomial([Monomial(1, [])])\n\n        res = self", "        if other == 0:\n            return Polynomial([Monomial(1, [])])\n        if other == 1:\n            return self\n\n        res = self")
+B('C12', 'limit located first, position tested by truth value', BASIC,
+  "    found_limit = False\n    for item in content:\n        if limit and item.ty == limit[0] and item.name == limit[1]:\n            found_limit = True\n            break\n\n        if item.error is None:\n            theory.thy.unchecked_extend(item.get_extension())\n\n    if limit and not found_limit:\n        raise TheoryException(\"load_theory: limit %s not found\" % str(limit))\n",
+  "    end = None\n    if limit:\n        for index, item in enumerate(content):\n            if item.ty == limit[0] and item.name == limit[1]:\n                end = index\n                break\n        else:\n            raise TheoryException(\"load_theory: limit %s not found\" % str(limit))\n\n    for item in (content[:end] if end else content):\n        if item.error is None:\n            theory.thy.unchecked_extend(item.get_extension())\n", 'C12.L10', 'load_theory')
+N('C12', 'limit located first, position tested with is None', BASIC,
+  "    found_limit = False\n    for item in content:\n        if limit and item.ty == limit[0] and item.name == limit[1]:\n            found_limit = True\n            break\n\n        if item.error is None:\n            theory.thy.unchecked_extend(item.get_extension())\n\n    if limit and not found_limit:\n        raise TheoryException(\"load_theory: limit %s not found\" % str(limit))\n",
+  "    end = None\n    if limit:\n        for index, item in enumerate(content):\n            if item.ty == limit[0] and item.name == limit[1]:\n                end = index\n                break\n        else:\n            raise TheoryException(\"load_theory: limit %s not found\" % str(limit))\n\n    for item in (content[:end] if end is not None else content):\n        if item.error is None:\n            theory.thy.unchecked_extend(item.get_extension())\n")
